@@ -152,14 +152,22 @@ func (cl *Loader) load(file string) (config map[string]interface{}, err error) {
 	var raw map[string]interface{}
 	importDir := path.Dir(file)
 	if imports, ok := config["import"]; ok {
-		for _, v := range imports.([]interface{}) {
-			if utils.IsURL(v.(string)) {
-				if cl.imports[v.(string)] {
+		importList, ok := imports.([]interface{})
+		if !ok {
+			return nil, fmt.Errorf("%s: import must be a list of files", file)
+		}
+		for _, entry := range importList {
+			v, ok := entry.(string)
+			if !ok {
+				return nil, fmt.Errorf("%s: import must be a list of files", file)
+			}
+			if utils.IsURL(v) {
+				if cl.imports[v] {
 					continue
 				}
-				raw, err = cl.load(v.(string))
+				raw, err = cl.load(v)
 			} else {
-				importFile := path.Join(importDir, v.(string))
+				importFile := path.Join(importDir, v)
 				if cl.imports[importFile] {
 					continue
 				}
